@@ -193,3 +193,56 @@ func VH_C16_PooledWriter(L, staleFramed, unframed int) {
 	vhAssert(junk.Len() == 0, "previous-sink-untouched")
 	vhReach("c16-pooled-writer")
 }
+
+// vhDataEOFReader delivers its data in segments; with eofWithData the last bytes come together with io.EOF (what
+// io.Reader allows and e.g. iotest.DataErrReader or a TLS connection do), otherwise EOF comes on its own.
+type vhDataEOFReader struct {
+	data        []byte
+	seg         int
+	eofWithData bool
+}
+
+func (r *vhDataEOFReader) Read(p []byte) (int, error) {
+	if len(r.data) == 0 {
+		return 0, io.EOF
+	}
+	n := len(p)
+	if n > r.seg {
+		n = r.seg
+	}
+	if n > len(r.data) {
+		n = len(r.data)
+	}
+	copy(p, r.data[:n])
+	r.data = r.data[n:]
+	if len(r.data) == 0 && r.eofWithData {
+		return n, io.EOF
+	}
+	return n, nil
+}
+
+// H1b: the writer fed through ReadFrom (io.Copy from a source without WriteTo): every byte the source delivers is in
+// the stream, also the bytes that arrive together with io.EOF, and the count returned is the number of bytes taken.
+func VH_C16_ReadFrom(L, framed int) {
+	payload := vhBytes("payload", L)
+	if framed == 0 {
+		vhNotMagic(payload)
+	}
+	seg := []int{1, 3, L + 1}[vhChoose("source_segment", 3)]
+	src := &vhDataEOFReader{data: append([]byte{}, payload...), seg: seg, eofWithData: vhBool("last_bytes_come_with_EOF")}
+	var sink bytes.Buffer
+	w := &xerialWriter{writer: &sink, framed: framed == 1, input: make([]byte, 0, 1030)}
+	n, err := w.ReadFrom(src)
+	ferr := w.Flush()
+	vhAssert(err == nil && ferr == nil, "readfrom-ok")
+	vhAssert(int(n) == L, "readfrom-counts-every-byte-of-the-source")
+	stream := sink.Bytes()
+	if framed == 1 {
+		got, _, ok := vhParseXerial(stream)
+		vhAssert(ok, "stream-is-well-formed-xerial-framing")
+		vhAssert(vhBytesEq(got, payload), "framed-blocks-carry-the-whole-payload-in-order")
+	} else {
+		vhAssert(vhBytesEq(stream, payload), "unframed-identity-stream-is-the-whole-payload")
+	}
+	vhReach("c16-readfrom")
+}
